@@ -18,7 +18,7 @@ vars == <<tid, l, minSeen, rsum, nimp>>
 Tr == Traces[tid]
 St(k) == IF k = 0 THEN Tr.init ELSE Tr.ev[k]
 Cur == St(l)
-Prev == St(l - 1)
+Bef == St(l - 1)
 Big == 1000000000
 Shaped(rec) == Len(rec) = Tr.n /\ WellFormed(rec)
 SafeLen(rec) == IF Shaped(rec) THEN TourLen(Tr.D, rec) ELSE Big
@@ -42,22 +42,22 @@ M_Best   == ~ValidTour(Cur.best) => Fail("best-tour-valid")
 M_Cost   == ~Near(Cur.cost, SafeLen(Cur.rec), Tr.tol) => Fail("cost-current")
 M_BsfLen == ~Near(Cur.bsf, SafeLen(Cur.best), Tr.tol) => Fail("bsf-length-of-best")
 M_BsfMin == ~Near(Cur.bsf, minSeen, Tr.tol) => Fail("bsf-min-seen")
-M_Mono   == (l > 0 /\ Cur.bsf > Prev.bsf) => Fail("bsf-monotone")
+M_Mono   == (l > 0 /\ Cur.bsf > Bef.bsf) => Fail("bsf-monotone")
 \* -------- rewards (logged ints are rounded floats: one unit per rounding when the instance is not exact) ----
 RTol == IF Tr.tol = 0 THEN 0 ELSE 2
-M_Reward == (l > 0 /\ ~Near(Cur.rew, Prev.bsf - Cur.bsf, RTol)) => Fail("reward-decrease")
+M_Reward == (l > 0 /\ ~Near(Cur.rew, Bef.bsf - Cur.bsf, RTol)) => Fail("reward-decrease")
 M_Sum    == ~Near(rsum, Tr.init.cost - Cur.bsf, RTol * (1 + nimp)) => Fail("reward-sum")
 \* -------- conformance with the transcribed move (valid predecessor tours only) --------
 IsJump(a) == a = <<0 - 1>>
-Expected(rec, a) == IF IsJump(a) THEN Prev.best
+Expected(rec, a) == IF IsJump(a) THEN Bef.best
                     ELSE IF Tr.kind = "pdp" THEN RRApplyAct(rec, a) ELSE Apply(rec, Tr.K, a)
 ActShaped(a) == /\ Len(a) = (IF Tr.kind = "pdp" THEN 3 ELSE IF Tr.K = 2 THEN 2 ELSE 3 * Tr.K)
                 /\ \A j \in DOMAIN a : a[j] \in Nodes(Tr.n)
                 /\ (Tr.kind = "pdp" => a[1] < Tr.n \div 2)
-D_Move == (l > 0 /\ ValidTour(Prev.rec) /\ (IsJump(Cur.a) \/ ActShaped(Cur.a)) /\ Cur.rec # Expected(Prev.rec, Cur.a))
+D_Move == (l > 0 /\ ValidTour(Bef.rec) /\ (IsJump(Cur.a) \/ ActShaped(Cur.a)) /\ Cur.rec # Expected(Bef.rec, Cur.a))
           => Fail("move-semantics")
-D_Mask == (l > 0 /\ ValidTour(Prev.rec) /\ ~IsJump(Cur.a)
-           /\ ~(IF Tr.kind = "pdp" THEN RRAdmitted(Prev.rec, Cur.a) ELSE Admitted(Prev.rec, Tr.K, Cur.a)))
+D_Mask == (l > 0 /\ ValidTour(Bef.rec) /\ ~IsJump(Cur.a)
+           /\ ~(IF Tr.kind = "pdp" THEN RRAdmitted(Bef.rec, Cur.a) ELSE Admitted(Bef.rec, Tr.K, Cur.a)))
           => PrintT(<<"DRIFT", tid, "move-outside-mask", l>>)
 End == (l = Len(Tr.ev)) => PrintT(<<"END", tid>>)
 =============================================================================
